@@ -184,7 +184,7 @@ def c10_3(ctx):
     w = sym.int_walk(ctx, f, {subj})
     calls = sym.calls_matching(w, "keys.private")
     if not calls:
-        raise AnalysisError("ParseAPI.wif: call of keys.private not found")
+        raise Undecided("ParseAPI.wif: call of keys.private not found")
     by_node = {}
     for e in calls:
         by_node.setdefault(id(e.raw), []).append(e)
